@@ -9,6 +9,9 @@ EXTENDS RtpWire, Json
 
 SeqOfSet(S) == SortedSeq(S)
 
+\* negative numbers cannot be written in a .cfg file: LostVals <- MC_LostVals
+MC_LostVals == {-8388609, -8388608, -1, 0, 1, 8388607, 8388608}
+
 PairJson(p) == [pid |-> p.pid, blp |-> BlpValue(p.bits)]
 
 CaseRec ==
@@ -29,7 +32,8 @@ CaseRec ==
           datalen |-> ExtMapDataLen(cur.map)]
     [] Mode = "nack" ->
          [mode |-> "nack", set |-> SeqOfSet(cur), real |-> [i \in 1..Cardinality(cur) |-> Real(SeqOfSet(cur)[i])],
-          minpairs |-> Len(WrapPack(cur)), maxpairs |-> Cardinality(cur)]
+          minpairs |-> Len(WrapPack(cur)), maxpairs |-> Cardinality(cur),
+          pairs |-> [i \in 1..Len(WrapPack(cur)) |-> PairJson(WrapPack(cur)[i])]]
     [] Mode = "rtx" ->
          [mode |-> "rtx", c |-> cur, wrap |-> RtxWrap(cur.orig, cur.rtxseq),
           un |-> RtxUnwrap(RtxWrap(cur.orig, cur.rtxseq))]
